@@ -1,6 +1,6 @@
 (* C19/Properties.v — property theorems only. *)
 From Flocq Require Import IEEE754.Bits.
-From Coq Require Import Lia.
+From Coq Require Import Lia Sorting.Sorted.
 From RM Require Import C08.Proofs C19.Model C19.Proofs C19.Pipeline C19.Proofs2.
 Open Scope Z_scope.
 
@@ -199,11 +199,17 @@ Theorem c19_null_target_no_flips : forall di pc c os r address rs id,
 Proof. exact null_target_no_flips. Qed.
 Print Assumptions c19_null_target_no_flips.
 
-(* registers examined by the register pass are base / index registers of the instruction's memory operands *)
-Theorem c19_instr_regs_sound : forall ops id,
-  In id (instr_regs ops) -> exists m, In m ops /\ (mo_base m = Some id \/ mo_index m = Some id).
-Proof. exact instr_regs_sound. Qed.
-Print Assumptions c19_instr_regs_sound.
+(* get_registers (the register pass iterates over it): strictly increasing in the order of the register NAMES — the
+   rank table is regenerated from CONTEXT_AMD64::REGISTERS — hence duplicate-free, and it holds exactly the base / index
+   registers of the instruction's memory operands *)
+Theorem c19_instr_regs_spec : forall ops,
+  StronglySorted rank_lt (instr_regs ops) /\
+  (forall id, In id (instr_regs ops) -> exists m, In m ops /\ (mo_base m = Some id \/ mo_index m = Some id)) /\
+  (forall m id, In m ops -> (mo_base m = Some id \/ mo_index m = Some id) -> 0 <= id <= 16 ->
+                (forall m' id', In m' ops -> (mo_base m' = Some id' \/ mo_index m' = Some id') -> 0 <= id' <= 16) ->
+                In id (instr_regs ops)).
+Proof. exact instr_regs_spec. Qed.
+Print Assumptions c19_instr_regs_spec.
 
 (* MemoryOperation::from_crash_reason / is_possibly_allowed_for (regenerated tables) are the model's *)
 Theorem c19_memop_tables : forall rg,
